@@ -1,7 +1,7 @@
 #!/bin/bash
-# tools/confirm_seed.sh <ID> <n>: confirms a candidate seeded change produced by a sub-agent in /tmp/seed-<ID>/<n> against its
-# scratch worktree /tmp/wt-<ID>: the demonstration must FAIL with the patch and PASS without it.
-ID=$1; N=$2; WT=/tmp/wt-$ID; S=/tmp/seed-$ID/$N
+# tools/confirm_seed.sh <ID> <n>: confirms a candidate seeded change produced by a sub-agent in /tmp/seed$ROUND-<ID>/<n> against its
+# scratch worktree /tmp/wt$ROUND-<ID>: the demonstration must FAIL with the patch and PASS without it.
+ID=$1; N=$2; R=${ROUND:-}; WT=/tmp/wt$R-$ID; S=/tmp/seed$R-$ID/$N
 export GOFLAGS=-mod=mod GOPROXY=off GOSUMDB=off GOTOOLCHAIN=local
 cd $WT && git checkout -q -- . && git clean -fdq
 RUN=$(ls $S/demo/run.sh 2>/dev/null)
